@@ -99,6 +99,10 @@ impl Slots {
             std::mem::swap(x, y);
         }
     }
+    /// raw pointer to a slot (for callbacks that act on a handle other than the one being operated on)
+    pub fn slot_ptr(&mut self, i: usize) -> *mut Option<LeanString> {
+        &mut self.0[i].v as *mut _
+    }
     /// index of a slot whose canary area was written
     pub fn damaged(&self) -> Option<usize> {
         self.0.iter().position(|c| c.canary.iter().any(|b| *b != CANARY))
@@ -128,11 +132,13 @@ pub struct World {
     /// global-allocator requests (outside the crate's own buffers) made inside the last real operation, when
     /// the operation is one during which the harness itself allocates nothing
     pub last_other_allocs: Option<u64>,
+    /// the callback side effect of the last real operation happened (slot, dropped?)
+    pub last_fx: Option<(Slot, bool)>,
 }
 
 impl World {
     pub fn new() -> Self {
-        World { slots: Slots::new(), model: [const { None }; SLOTS], last_other_allocs: None }
+        World { slots: Slots::new(), model: [const { None }; SLOTS], last_other_allocs: None, last_fx: None }
     }
 
     /// Observe a live handle without trusting it more than necessary. Returns Err with failures
